@@ -266,9 +266,10 @@ fn verif_c18_enumeration() {
         ("response_derives", vec!["Debug", "Debug, Clone", "PartialEq,Eq", "Serialize"]),
         ("variables_derives", vec!["Debug", "Clone,Debug", "Default"]),
         ("custom_scalars_module", vec!["crate::scalars", "scalars", "super::scalars"]),
-        ("fragments_other_variant", vec!["true", "false", "TRUE", "yes", ""]),
-        ("deprecated", vec!["allow", "warn", "deny", "DeNy", "ALLOW", "bogus", ""]),
-        ("normalization", vec!["none", "rust", "RUST", "Rust", "bogus"]),
+        // values with a backslash: in a raw literal it is an ordinary character, never an escape
+        ("fragments_other_variant", vec!["true", "false", "TRUE", "yes", "", "tru\\x65"]),
+        ("deprecated", vec!["allow", "warn", "deny", "DeNy", "ALLOW", "bogus", "", "den\\x79", "al\\u{6c}ow"]),
+        ("normalization", vec!["none", "rust", "RUST", "Rust", "bogus", "rus\\x74"]),
     ];
     let mut singles: Vec<Item> = Vec::new();
     for (k, vs) in &domains {
